@@ -40,6 +40,8 @@ type State struct {
 	havockedPrefixes []string
 	lockSnaps        map[string]*State
 	lastLockSnap     *State
+	cameFrom         *ssa.BasicBlock
+	pow2Seen         map[string]Term
 }
 
 // rangeIter is the ghost state of a `for k, v := range m` loop over a map: the set of keys already visited.
@@ -67,6 +69,13 @@ func (st *State) clone() *State {
 	}
 	n.havockedPrefixes = append([]string{}, st.havockedPrefixes...)
 	n.lastLockSnap = st.lastLockSnap
+	n.cameFrom = st.cameFrom
+	if st.pow2Seen != nil {
+		n.pow2Seen = make(map[string]Term, len(st.pow2Seen))
+		for k, v := range st.pow2Seen {
+			n.pow2Seen[k] = v
+		}
+	}
 	if st.lockSnaps != nil {
 		n.lockSnaps = make(map[string]*State, len(st.lockSnaps))
 		for k, v := range st.lockSnaps {
